@@ -48,6 +48,7 @@ UKFCorrection::UKFCorrection
 
 
 UKFCorrection::UKFCorrection(UKFCorrection&& ukf_correction) noexcept :
+    GaussianCorrection(std::move(ukf_correction)),
     measurement_model_(std::move(ukf_correction.measurement_model_)),
     additive_measurement_model_(std::move(ukf_correction.additive_measurement_model_)),
     type_(ukf_correction.type_),
